@@ -75,6 +75,7 @@ def check_hankel_series(ctx: Check, tree: Tree) -> None:
 
 def run(ctx: Check, tree: Tree) -> None:
     ctx.decided += [
+        "R-STRUCTSUBS: no lineshape is evaluated 'at a point' by structural substitution of a parameter that callers bind to compound expressions",
         "R-TERM (shared with C13): the variable set handed to the builders carries the masses and the L of that decay node (fallbacks only where the transition specifies no L)",
         "EnergyDependentWidth.evaluate at s = mass0^2 normalises to gamma0 for every phase-space factor and L (ff/ff0 and rho/rho0 become identical applications)",
         "SphericalHankel1.evaluate is the closed Hankel series (the defining expression both Blatt-Weisskopf paths are built from)",
